@@ -183,7 +183,7 @@ def c11_2(ctx: Ctx) -> RuleResult:
             if eq_store:
                 et = norm(X.at(m, eq_store[0].value))
                 mm = match(et, call("numpy.max", call("numpy.abs", V("c")), axis=V("ax")))
-                eq_ok = mm is not None and mm["ax"] in (C(-1), C(1)) and {norm(a) for a in alts(mm["c"])} == {norm(mul(A, sc)), A}
+                eq_ok = mm is not None and mm["ax"] in (C(-1), C(1)) and value_alts(mm["c"]) == {norm(mul(A, sc)), A}
             if not eq_ok:
                 ok, why = False, "row scaling is not max(abs(A*s), axis=-1)"
             nc = norm(coef)
@@ -191,12 +191,12 @@ def c11_2(ctx: Ctx) -> RuleResult:
             def is_rowscale(d):
                 return contains(d, lambda s: (s[0] == "attr" and s[2] == F["rows"]) or (eq_store and s == et))
 
-            if ok and not (mc is not None and {norm(a) for a in alts(mc["num"])} == {norm(mul(A, sc)), A} and is_rowscale(mc["den"])):
+            if ok and not (mc is not None and value_alts(mc["num"]) == {norm(mul(A, sc)), A} and is_rowscale(mc["den"])):
                 ok, why = False, f"coefficients are `{show(coef, 100)}`, not (A*s) / row_scale"
             for name, b, orig in (("lower", l2, lo), ("upper", u2, up)):
                 nb = norm(b)
                 mb = match(nb, div(V("num"), V("den")))
-                num_ok = mb is not None and {norm(a) for a in alts(mb["num"])} == {norm(add(orig, neg(call("numpy.dot", A, of)))), orig}
+                num_ok = mb is not None and value_alts(mb["num"]) == {norm(add(orig, neg(call("numpy.dot", A, of)))), orig}
                 if ok and not (num_ok and (mb["den"] == self_attr(m, "_equation_scaling") or mb["den"] == et)):
                     ok, why = False, f"{name} bounds are `{show(b, 100)}`, not (b - A.offsets) / row_scale"
         res.add(m, m.node, "linear constraints: A' = A*s / r, b' = (b - A.o) / r with r = max|A*s| per row", ok, why, construct="scaler: linear constraints")
@@ -471,7 +471,9 @@ def c11_6(ctx: Ctx) -> RuleResult:
             for d_ in nodes_in(m, ast.Dict):
                 for k_, v_ in zip(d_.keys, d_.values):
                     if isinstance(k_, ast.Constant) and k_.value in ("results", "transformed_results"):
-                        stores.setdefault(k_.value, []).append((d_, X.at(m, v_), lits_at(stmt_of(d_))))
+                        from ..util import _enclosing_conds
+
+                        stores.setdefault(k_.value, []).append((d_, X.at(m, v_), lits_at(stmt_of(d_)) + [(a_, p_) for a_, p_ in _enclosing_conds(ctx, m, d_)]))
             if not stores:
                 continue
             n += 1
